@@ -9,13 +9,13 @@ OWN = {"P03_prompt"}
 def plans(ctx):
     if ctx.tier == "quick":
         # two login services (second stamping OK), timeout before/after replies, -! after +!, password re-sent
-        return [R.Plan("t1c", "S_t1c", emit_mod=70, max_inst=1, max_pw=2),
+        return [R.Plan("t1c", "S_t1c", emit_mod=110, max_inst=1, max_pw=2),
                 # stray replies (e.g. a second reply from a service that already answered MORE) must not disturb the holds
-                R.Plan("q1", "S_q1", emit_mod=110, max_inst=1, max_pw=2, stray=1),
+                R.Plan("q1", "S_q1", emit_mod=160, max_inst=1, max_pw=2, stray=1),
                 # an id announced again while its earlier instance is blocked: the newcomer starts from scratch
                 R.Plan("t1di2", "S_t1d", emit_mod=25, max_inst=2, max_pw=1),
                 R.Plan("noxq", "S_noxq", emit_mod=2, max_inst=2, max_pw=1, stray=1),
-                R.Plan("unk", "S_unk", emit_mod=250, max_inst=1, max_pw=2, stray=1)]
+                R.Plan("unk", "S_unk", emit_mod=450, max_inst=1, max_pw=2, stray=1)]
     return [R.Plan("t1c", "S_t1c", emit_mod=25, max_inst=1, max_pw=2, stray=1),
             R.Plan("q1", "S_q1", emit_mod=20, max_inst=1, max_pw=3, stray=1),
             R.Plan("q1i2", "S_q1", emit_mod=50, max_inst=2, max_pw=1, stray=1),
